@@ -60,6 +60,55 @@ class Spec(hist.Spec):
     def witness_fields(self):
         return {}
 
+    # observe / mutate / observe pass (hist.interleavings)
+    def probes(self):
+        out = [["len"], ["items"], ["prefixes"], ["values"]]
+        for q in self.qkeys:
+            out += [["get", q], ["getitem", q], ["longest", q]]
+        return out
+
+    def apply(self, t, op):
+        t[mk_key(op[1], op[3])] = op[2]
+
+    def probe(self, t, p):
+        msort = lambda xs: sorted(xs, key=repr)
+        if p[0] == "len":
+            r = core.call(len, t)
+        elif p[0] == "items":
+            # the yielded keys are kept as yielded (a consumer may hold on to them) and read after the walk
+            r = core.call(lambda: msort([list(k), v] for k, v in list(t.items())))
+        elif p[0] == "prefixes":
+            r = core.call(lambda: msort(list(k) for k in list(t.prefixes())))
+        elif p[0] == "values":
+            r = core.call(lambda: msort(t.values()))
+        elif p[0] == "get":
+            r = core.call(t.get, p[1], ABSENT)
+        elif p[0] == "getitem":
+            r = core.call(t.__getitem__, p[1])
+        else:
+            r = core.call(t.longest_matching_prefix_value, p[1])
+        return list(r[:2])
+
+    def ref_probe(self, d, p):
+        msort = lambda xs: sorted(xs, key=repr)
+        if p[0] == "len":
+            return ["ok", len(d)]
+        if p[0] == "items":
+            return ["ok", msort([list(k), v] for k, v in d.items())]
+        if p[0] == "prefixes":
+            return ["ok", msort(list(k) for k in d)]
+        if p[0] == "values":
+            return ["ok", msort(d.values())]
+        tq = tuple(p[1])
+        if p[0] == "get":
+            return ["ok", d.get(tq, ABSENT)]
+        if p[0] == "getitem":
+            return ["ok", d[tq]] if tq in d else ["exc", "KeyError"]
+        for l in range(len(tq), -1, -1):
+            if tq[:l] in d:
+                return ["ok", d[tq[:l]]]
+        return ["ok", None]
+
     def check(self, t, d):
         fails = []
         n = 0
@@ -75,6 +124,11 @@ class Spec(hist.Spec):
         cmp("C10.len", ["len"], len(d), core.call(len, t))
         cmp("C10.items", ["items"], msort([list(k), v] for k, v in d.items()),
             core.call(lambda: msort([list(k), v] for k, v in t.items())))
+        # keys kept as yielded and read only after the walk is over (a yielded key must not change afterwards)
+        cmp("C10.items", ["items-kept"], msort([list(k), v] for k, v in d.items()),
+            core.call(lambda: msort([list(k), v] for k, v in list(t.items()))))
+        cmp("C10.prefixes", ["prefixes-kept"], msort(list(k) for k in d),
+            core.call(lambda: msort(list(k) for k in list(t.prefixes()))))
         cmp("C10.items", ["iter"], msort([list(k), v] for k, v in d.items()),
             core.call(lambda: msort([list(k), v] for k, v in iter(t))))
         cmp("C10.prefixes", ["prefixes"], msort(list(k) for k in d),
@@ -126,6 +180,8 @@ def get_spec(name):
 
 
 def judge(w):
+    if "probe" in w:
+        return hist.judge_interleaved(Spec("replay", [], [], [], []), w["ops"], w["probe"], w["then"])
     spec = Spec("replay", [], [], [], [w["query"][1]] if len(w["query"]) > 1 else [])
     try:
         obj = spec.build_ops(w["ops"])
@@ -153,6 +209,9 @@ def explore(chk):
     hist.sequences(S["seq-k3-v3"], chk, "seq-k3-v3", L)
     hist.sequences(S["seq-mixed-tokens"], chk, "seq-mixed-tokens", 2 if quick else 3)
     hist.sequences(S["seq-deep-keys"], chk, "seq-deep-keys", 2)
+    chk.rule.append("Observe/mutate/observe: after every assignment history of length <= %d, every single query, then every one further "
+                    "assignment (or none), then the same query twice: each answer compared with the dict (a query must be a pure observer)." % (2 if quick else 3))
+    hist.interleavings(S["closure-k2-v3"], chk, "interleaved-k2-v3", 2 if quick else 3)
     if not quick:
         st = hist.closure(S["closure-abc-k2-v2"], chk, "closure-abc-k2-v2")
         if not st["complete"] and not chk.witnesses:
